@@ -287,6 +287,27 @@ pub fn c14(cx: &mut Ctx) {
             cx.op("follow samehost");
         }
     }
+    // a Host header set on the original request (virtual hosting): it names the host that request was meant for
+    // and does not travel to another host; relative redirects, the way back, hosts differing in case only
+    for orig in ["http://a.test/o", "http://A.test/o", "https://a.test:8443/o"] {
+        for t1 in ["http://b.test/t", "/same", "//b.test/x", "http://a.test:8080/p", "https://a.test/s", "http://A.TEST/u", "../r"] {
+            for t2 in ["", "/second", "http://a.test/back", "http://c.test/on"] {
+                cx.case("exphost");
+                if cx.rec.new_flow(&format!("GET HTTP/1.1 {} {}", orig, super::hdrs(&[("host", b"virtual.test"), ("x-keep", b"1")]))) != "ok" { continue; }
+                let mut ok = true;
+                for t in [t1, t2] {
+                    if t.is_empty() { continue; }
+                    let h = Hop { status: 302, locations: vec![t.as_bytes().to_vec()], body: false };
+                    if !exchange_to_redirect(cx, &h) { ok = false; break; }
+                    if !cx.op("follow samehost").starts_with("flow ") { ok = false; break; }
+                }
+                if !ok { continue; }
+                cx.op("uri?");
+                cx.op("proceed");
+                cx.op("write 65536");
+            }
+        }
+    }
     // dot segments in every position of a path-absolute or relative Location — last segment, before the query,
     // the whole path — on the first and on the second hop (the second hop's base is a URI the library made)
     for loc in ["/docs/v2/..", "/docs/v2/.", "/a/b/..?page=2", "/a/b/.?x", "/..", "/.", "/a/..", "/a/.", "/a/b/../..", "/a/./b/..", "/a/b/..#f", "a/..", "a/.", "../..", "/a/..;p", "/a/...", "/a/.b", "/a/b/%2e%2e"] {
